@@ -20,8 +20,9 @@ An obligated arm is `Classified` when its kind
 
 A new `todo!()` for a supported kind, in any backend, is unclassifiable and breaks
 `backend_arms_classified_partial`.  Markdown declares nothing (`markdown_declares_nothing`), so every
-`todo!` arm of the Markdown generator is a defect: those listed in `knownDefectArms` are recorded in
-known_findings.jsonl (found by the search: `type f = future<u8>;` / `type s = stream<u8>;`).
+`todo!` arm of the Markdown generator is a defect (`markdown_has_no_obligated_arm`: after the `fix:`
+commits for `print_ty` on fixed-length lists and `type_future` / `type_stream`, found by the search, it has none).
+The arms listed in `knownDefectArms` are recorded in known_findings.jsonl.
 -/
 namespace Witverif.Props.C16Backends
 open Witverif.Generated.PanicArms
@@ -50,8 +51,6 @@ def reviewed : List (String × String) := [
 
 /-- Arms that ARE reachable by valid worlds and are not declared: defects (known_findings.jsonl). -/
 def knownDefectArms : List String := [
-  "e50ccbc8b96b",   -- markdown type_future: todo!()
-  "b5b194fb8fd8",   -- markdown type_stream: todo!()
   "9f010f6d880d"]   -- cpp define_type: `Handle(_) => todo!("generate for handle")`, reached by `type h = borrow<r>;`
 
 def obligated (a : Arm) : Bool := a.direct && a.mac != "unreachable"
@@ -65,7 +64,7 @@ theorem markdown_declares_nothing : declaredFeatures "markdown" = [] := rfl
 
 /- Full statement (DESIGN §7 C16, `b_no_panicking_arm`):
      ∀ a ∈ arms, obligated a → Classified a
-   false of the current code (Markdown `type_future` / `type_stream`): -/
+   false of the current code (C++ `define_type`: `Handle(_) => todo!("generate for handle")`): -/
 theorem backend_arms_classified_full_false :
     ¬ ∀ a ∈ arms, obligated a = true → Classified a = true := by
   decide +kernel
@@ -84,9 +83,14 @@ theorem known_defects_are_arms : ∀ f ∈ knownDefectArms, (arms.map (·.finger
 theorem reviewed_are_arms : ∀ p ∈ reviewed, (arms.map (·.fingerprint)).contains p.1 = true := by
   decide +kernel
 
+/-- Markdown has no `todo!` / `unimplemented!` / `panic!` arm left. -/
+theorem markdown_has_no_obligated_arm :
+    ∀ a ∈ arms, a.backend = "markdown" → obligated a = false := by
+  decide +kernel
+
 /-! non-vacuity -/
 example : (arms.filter obligated).length > 50 := by decide +kernel
 example : declaredKinds "c" = ["Type::ErrorContext", "TypeDefKind::FixedLengthList"] := by decide +kernel
-example : (arms.filter fun a => a.backend == "markdown" && obligated a).length ≥ 2 := by decide +kernel
+example : (arms.filter fun a => a.backend == "markdown").length ≥ 1 := by decide +kernel
 
 end Witverif.Props.C16Backends
